@@ -103,19 +103,7 @@ def vws(ctx, prog, lib, roles):
         if not missing and not inexact:
             ctx.ok("VWS-1", site, {"ignored_under_x": len(ignored), "rewritten": len([c for c in ignored if c in covered])}, b.loc())
     ctx.floor("VWS-1", "verbose paths of RegExp::fmt", nv, 24)
-    # header: (?x)/(?ix) present iff verbose (flag part of the skeleton)
-    for fl in r["leaves"]:
-        sk, why = fmtmodel.parse_skeleton(fl)
-        if sk is None:
-            continue
-        v, ci = fl.flags.get("verbose"), fl.flags.get("ignore_case")
-        want = {(True, True): "(?ix)", (True, False): "(?i)", (False, True): "(?x)", (False, False): ""}.get((bool(ci), bool(v)))
-        if v is None or ci is None:
-            ctx.undecided("CAS-1", b.path, "a path does not test both the verbose and the case setting", b.loc())
-        elif sk["flag"] != want:
-            ctx.violation("CAS-1", (b.path, "flag"), "flag group is %r, expected %r for settings %s" % (sk["flag"], want, fl.flags), b.loc())
-        else:
-            ctx.ok("CAS-1", "%s|ci=%s,x=%s|%s" % (b.path, ci, v, ",".join("%s=%d" % kv for kv in sorted(fl.flags.items()))), {"flag": want}, b.loc())
+    fmtmodel.cas1(ctx, lib, roles)
 
 
 GROUP_SITES = None
